@@ -134,6 +134,7 @@ func (e *Expr) Alts() []*Expr {
 // ---------------------------------------------------------------------------------------
 
 type builder struct {
+	cuts int
 	w     *World
 	fn    *ssa.Function
 	memo  map[ssa.Value]*Expr
@@ -180,9 +181,18 @@ func (b *builder) expr(v ssa.Value) *Expr {
 		return e
 	}
 	if b.inpro[v] {
+		b.cuts++
 		return &Expr{Op: "loop", Name: v.Name(), V: v, T: v.Type()}
 	}
 	b.inpro[v] = true
+	rdCuts := func() int {
+		if b.rd == nil {
+			return 0
+		}
+		return b.rd.loopHits
+	}
+	rdIdle := b.rd == nil || len(b.rd.busy) == 0
+	cuts0 := b.cuts + rdCuts()
 	e := b.build(v)
 	delete(b.inpro, v)
 	if e.V == nil {
@@ -191,7 +201,13 @@ func (b *builder) expr(v ssa.Value) *Expr {
 	if e.T == nil {
 		e.T = v.Type()
 	}
-	b.memo[v] = e
+	// An origin computed while a cycle was being cut (a loop-carried value or cell under evaluation further up)
+	// is relative to where the evaluation started: remember it only when no cut happened below this value, or
+	// when this value is itself the start of the evaluation. Otherwise the answer to a later question would
+	// depend on which question was asked first.
+	if b.cuts+rdCuts() == cuts0 || len(b.inpro) == 0 && rdIdle {
+		b.memo[v] = e
+	}
 	return e
 }
 
